@@ -422,25 +422,40 @@ def _tsv_via_convert(w, slot, ref, cat, name):
     lists = cat is not None and isinstance(ref.md[0][0][cat], list)
     if cat is not None and not lists:
         cat = None       # the command's formatters are for hierarchical lists
+    if cat is not None and any(';' in x or x != x.strip()
+                               for d in ref.md[0] for x in d[cat]):
+        cat = None       # the command splits on every ';' (and strips)
     w.case('c03.tsv', 'convert', slot, md=cat is not None)
+    src = store.new_path(w, '.src.biom')
     try:
-        _convert(slot.real.copy(), tsv, to_tsv=True, header_key=cat,
-                 output_metadata_id=name if cat else None,
-                 table_type=ref.type, tsv_metadata_formatter='naive'
-                 if not lists else 'sc_separated')
-        back = biom.load_table(tsv)
-        kw = {}
-        if cat is not None:
-            kw['process_obs_metadata'] = 'taxonomy'
-        _convert(back, out, to_json=True, table_type=ref.type, **kw)
+        # the click command itself: every step goes through files
+        from biom.cli.table_converter import convert as cmd
+        import datetime
+        tc = slot.real.copy()
+        if cat is None:
+            tc.del_metadata()
+        else:
+            tc.del_metadata(axis='sample')
+            others = [k for k in ref.md[0][0] if k != cat]
+            if others:
+                tc.del_metadata(keys=others, axis='observation')
+        with open(src, 'w', encoding='utf8') as f:
+            f.write(tc.to_json('c03', creation_date=datetime.datetime(
+                2020, 1, 1)))
+        cmd.callback(src, tsv, None, None, False, False, True, False, False,
+                     cat, name if cat else None, ref.type, None,
+                     'naive' if not lists else 'sc_separated')
+        cmd.callback(tsv, out, None, None, True, False, False, False, False,
+                     None, None, ref.type,
+                     'taxonomy' if cat is not None else None, 'sc_separated')
         t2 = biom.load_table(out)
     except Exception as e:  # noqa
-        for p in (tsv, out):
+        for p in (tsv, out, src):
             if os.path.exists(p):
                 os.unlink(p)
         w.fail('c03.read_raised', 'biom convert round trip raised %r' % (e,))
         return
-    for p in (tsv, out):
+    for p in (tsv, out, src):
         if os.path.exists(p):
             os.unlink(p)
     w.stats['c03.via_convert'] += 1
